@@ -202,6 +202,7 @@ fn gen(t: &mut Tape, _tier: Tier) -> Scenario {
                 pb: props.pb,
                 dict: dict as u32,
                 size: if unknown { None } else { Some(declared) },
+                pre: None,
             }
             .store(&mut sc);
             sc.set_b("input", payload);
@@ -289,10 +290,36 @@ fn gen(t: &mut Tape, _tier: Tier) -> Scenario {
         } else {
             2 + t.below(2) as u8
         };
+        // now and then the offending chunk is a mid-stream dictionary-reset chunk whose
+        // declared size needs the size bits of the control byte (0xE1.. above 64 KiB,
+        // 0xF0.. above 1 MiB): reset class and size share that byte
+        let big = !inherit && pre_chunks > 0 && w.enc.model.out.len() > 0 && t.below(50) == 0;
+        let reset: u8 = if big { 3 } else { reset };
         let ts = w.enc.trace.len();
         let newp = if reset >= 2 { Some(gen::draw_props(t, true)) } else { None };
         w.begin_lzma_chunk(reset, newp);
         let target = if inherit && reset == 0 { t.below(4).saturating_sub(1) } else { t.below(120) };
+        if big {
+            let fill = match t.below(4) {
+                0 => t.range(0x10_0001, 0x1F_FF00),
+                1 => 0x10_0000 + t.below(3),
+                2 => t.range(65_536, 70_000),
+                _ => t.range(65_536, 1 << 20),
+            };
+            let start = w.enc.model.out.len() as u64;
+            let b0 = t.byte();
+            let _ = w.enc.encode(Sym::Lit(b0));
+            let _ = w.enc.encode(Sym::Lit(b0 ^ 0x5A));
+            while (w.enc.model.out.len() as u64) < start + fill {
+                let left = start + fill - w.enc.model.out.len() as u64;
+                if left < 2 {
+                    let _ = w.enc.encode(Sym::Lit(b0));
+                } else {
+                    let _ = w.enc.encode(Sym::Match { dist: 2, len: left.min(273) as u32 });
+                }
+            }
+            sc.set_i("big_reset_chunk", 1);
+        }
         gen::gen_program(t, &cfg, &mut w.enc, target, 4000, &mut ps);
         let expect = w.enc.model.out.clone();
         let (bad, why) = bad_symbol(t, &w.enc);
@@ -395,6 +422,9 @@ fn exec(sc: &Scenario, ctx: &mut Ctx) -> Vec<Violation> {
     }
     if sc.i("low_limit") == 1 {
         ctx.stats.hit("arm.memory_limit_below_the_dictionary");
+    }
+    if sc.i("big_reset_chunk") == 1 {
+        ctx.stats.hit("probe.illegal_copy_in_mid_stream_dictionary_reset_chunk_above_64KiB");
     }
     if sc.i("lzma2_inherit") == 1 {
         ctx.stats.hit("probe.distance_inherited_across_lzma2_dictionary_reset");
